@@ -29,4 +29,5 @@ try:
 finally:
     sh('rm -rf /verif/evidence && mv /verif/work/evidence.bak /verif/evidence')
     sh("git -C /repo checkout -- . && git -C /repo clean -fdq -e verif_export.go")
+    sh("cd /verif/harness && ./bin/gen /repo /verif/coq/gen")  # generated facts back to the clean tree
     print("restored:", sh("git -C /repo status --porcelain").stdout.strip() or "clean")
